@@ -15,14 +15,17 @@ import interstitial_common as ic
 META = dict(
     id='C03',
     lean_modules=['OnsagerProofs.Lemmas.Variational', 'OnsagerModel.C02', 'OnsagerModel.C03', 'OnsagerModel.InterstitialDriver',
-                  'OnsagerProofs.C02', 'OnsagerProofs.C03'],
+                  'OnsagerProofs.C02', 'OnsagerProofs.C03', 'OnsagerModel.Chain', 'OnsagerProofs.Chain', 'OnsagerProofs.Lemmas.Quadratic',
+                  'OnsagerProofs.ChainPSD'],
     theorems=['Onsager.Var.D_symm', 'Onsager.Var.Q_nonneg', 'Onsager.Var.Qmin_relabel', 'Onsager.C03.form_symm',
-              'Onsager.C03.form_nonneg', 'Onsager.C03.form_invariant', 'Onsager.C03.invcheck_sound', 'Onsager.C03.invcheck_form_eq'],
+              'Onsager.C03.form_nonneg', 'Onsager.C03.form_invariant', 'Onsager.C03.invcheck_sound', 'Onsager.C03.invcheck_form_eq',
+              'Onsager.Var.M_eq_gram', 'Onsager.Var.gram_quad_nonneg', 'Onsager.Chain.chain_psd', 'Onsager.Chain.formOf_symm'],
     tie_theorems=[],
     level_text='Kernel-checked for the exact interstitial model (any network, any rational data): the tensor is symmetric, positive '
                'semidefinite, and equal in any two directions related by a site bijection that carries the projected networks onto each '
                'other (the decidable hypothesis is evaluated by the driver for every actual group operation). The same lemmas '
-               '(D_symm, Q_nonneg, Qmin_relabel) are the reason for L0vv, Lss and L1vv. For the vacancy-mediated tensors and the '
+               '(D_symm, Q_nonneg, Qmin_relabel) are the reason for L0vv, Lss and L1vv; for every finite solute-vacancy chain the FULL tensors Lss and Lvv '
+               'returned by the exact chain model are positive semidefinite in every direction (chain_psd) and reciprocal (formOf_symm). For the vacancy-mediated tensors and the '
                'elastodiffusion tensor the code is tied by direct oracles only (partial). The Lsv symmetry clause is false of the exact '
                'physics for point groups with an invariant axial vector (open finding F11).',
     level_note='Trusted: Lean kernel + standard axioms; correspondence of the implementation with the exact model (C02). '
@@ -131,6 +134,38 @@ def run(ctx):
             elif parts[1] != parts[2]:
                 ctx.disagree('exact model: u.D.u != (Ru).D.(Ru) although invcheck accepted (contradicts invcheck_form_eq)', dict(rep, ans=ans))
     vacancy_part(ctx)
+    chain_psd_part(ctx)
+
+
+def chain_psd_part(ctx):
+    """Exact finite solute-vacancy chains built from the implementation tables: the model returns every tensor component (hypothesis
+    of Chain.chain_psd) and the exact rational tensors Lss, Lvv are positive semidefinite, Lss/Lvv symmetric, Lsv reciprocal."""
+    import vacancy_common as vc, oracle_chain as oc
+    from fractions import Fraction
+    from props.c01 import exact_rand_data
+    cases = [('sq2d', 5), ('rect2d-2site', 5)] if ctx.quick else [('sq2d', 5), ('tri2d', 5), ('honey2d', 5), ('rect2d-2site', 5), ('oblique2d', 5), ('fcc', 5)]
+    lines, meta = [], []
+    for name, n in cases:
+        calc = vc.calculator(name, 1)
+        q, d = exact_rand_data(ctx.rng, calc)
+        try:
+            ch = oc.chain_transitions(calc, oc.activities_exact(q, d), n)
+        except ValueError as e:
+            ctx.note('chain %s n=%d skipped: %s' % (name, n, e)); continue
+        lines.append(oc.lean_request(ch, calc.crys)); meta.append((name, n, calc, d))
+    if not lines: return
+    answers = ctx.lean('Drive/Chain.lean', lines, timeout=3000)
+    for (name, n, calc, d), ans in zip(meta, answers):
+        dim = calc.crys.dim
+        rep = dict(calculator=name, n=n, data={k: [str(x) for x in v] for k, v in d.items()})
+        ctx.case(('chain-psd', name, n, str(d)), nontrivial=True, sample=rep); ctx.count('chain-psd:' + name)
+        if not ans.startswith('ok '):
+            ctx.disagree('exact chain model returns no tensors (%s): hypothesis of chain_psd not met by the chain built from the implementation tables' % ans[:40], rep); continue
+        T = [np.array([[float(Fraction(x)) for x in p_.strip().split(',')][al * dim:(al + 1) * dim] for al in range(dim)]) for p_ in ans[3:].split('|')]
+        for blk, lab in ((0, 'Lss'), (2, 'Lvv')):
+            sc = max(np.abs(T[blk]).max(), 1e-300)
+            if np.abs(T[blk] - T[blk].T).max() > 1e-12 * sc or np.linalg.eigvalsh(0.5 * (T[blk] + T[blk].T)).min() < -1e-12 * sc:
+                ctx.disagree('exact chain tensor %s is not symmetric positive semidefinite (contradicts chain_psd / formOf_symm)' % lab, dict(rep, tensor=T[blk].tolist()))
 
 
 def vacancy_part(ctx):
